@@ -309,6 +309,22 @@ def channel_case(p, res):
                         v("scale-law", f"snr={vals_ok[len(vals_ok) // 2]}: noise for 3*x is not 3 * noise for x")
                 except Exception as e:  # noqa: BLE001
                     v("raises", f"scaling input: {type(e).__name__}: {str(e)[:200]}")
+        # ------------- (ii') the extreme answers of the generators: a uniform draw may be exactly 0, 2^-24, 0.5 or 1 - 2^-24 (each has probability 2^-24
+        # per sample: about once per 1.7e7 samples), a normal draw +-5.4 sigma: the added noise stays finite and zero-mean-symmetric in its law
+        ext = [0.0, 2.0 ** -24, 0.5, 1.0 - 2.0 ** -24, 0.25, 0.75] if ch == "laplacian" else [5.4, -5.4, 0.0, 1e-30, -1e-30, 3.0]
+        for val in (values[0], values[-1]):
+            for cx_ in ([cplx] if ch not in ("awgn", "laplacian") else [cplx]):
+                xs = signal(6, 1.0, cplx, 0)
+                run, ref = build(ch, par, val, mode)
+                try:
+                    with Seam(Alphabet(ext, pad=0.5 if ch == "laplacian" else 0.0)):
+                        nz = (run(xs) - ref(xs)).reshape(-1)
+                except Exception as e:  # noqa: BLE001
+                    v("raises", f"extreme draws {ext}, {par}={val}: {type(e).__name__}: {str(e)[:200]}")
+                    continue
+                res.ev(1, nontrivial=1, transitions=1)
+                if not bool(torch.isfinite(torch.view_as_real(nz) if nz.is_complex() else nz).all()):
+                    v("power" if par != "snr" else "snr", f"{par}={val}: the generator answers {ext} (each a value the generator does return) give non-finite noise {[complex(t) if nz.is_complex() else float(t) for t in nz.tolist()][:6]}")
         # ------------- (iii) seam-free: same-seed relations, supplied noise verbatim
         xs = signal(64, 1.0, cplx, 1)
         prev = None
